@@ -32,6 +32,12 @@ from ..worldlib import pylines
 IGNORE = "# static analysis: ignore"
 
 
+def _nobom(text):
+    """pyanalyze reads files as utf-8 and parses the encoded bytes; parse the str the same way."""
+    return text[1:] if text.startswith("\ufeff") else text
+
+
+
 class SimCrash(BaseException):
     pass
 
@@ -265,7 +271,7 @@ class World:
         st = {}
         for name, text in texts.items():
             try:
-                ast.parse(text)
+                ast.parse(_nobom(text))
                 st[name] = True
             except SyntaxError as e:
                 st[name] = "SyntaxError: %s (line %s)" % (e.msg, e.lineno)
